@@ -46,6 +46,32 @@ PROPS = {
                    'theorems. Worker scheduling is not modelled (results are joined by slice index).',
         technique='Lean 4 proof (order theorems by omega, slicing by induction) + model/implementation correspondence',
     ),
+    'C13': dict(
+        areas=[('matcher', 300, 20000), ('rank', 3000, 300000)],
+        procs=['race'],
+        rule='matcher area: real Matcher over 3..3000 generated lines; scans with 1..32 partitions with a reset posted before / '
+             'concurrently with the scan; searches through Matcher.Loop while a loader goroutine is pushing (snapshot counts '
+             'are whatever the schedule produced; each published result is judged against the model filter of exactly that '
+             'prefix, and the snapshot is re-read after the search); rank area: chunk-list scripts re-reading every snapshot '
+             'after later pushes and snapshots (with and without --tail). race: the same concurrent cases in a harness built '
+             'with -race',
+        trusted=['Go memory model / race detector for the race driver', 'sort.Sort', 'Go unicode tables',
+                 'the schedules actually produced by the Go runtime (the theorems quantify over all traces of the model, the '
+                 'runs sample schedules of the implementation)'],
+        level_text='Lean 4 theorems over a heap model of the chunk list (cells shared between the live list and snapshots): a '
+                   'snapshot taken at any reachable moment, with or without --tail, reads the same after every later history '
+                   'of pushes and snapshots; without --tail it holds exactly the items pushed before it, in order; reported '
+                   'counts equal sizes. Over a transition-system model of scan\'s cancellation protocol (workers, cancelled '
+                   'flag, count channel, result channel, newer request observed after any count): along every trace a '
+                   'returned result is the complete result of every slice and a cancelled scan returns nothing. The models '
+                   'are tied to /repo by in-process runs of ChunkList, Matcher.scan and Matcher.Loop (incl. a concurrent '
+                   'loader) and by the Go race detector over those runs.',
+        level_note='Partial: the interleavings of the real goroutines are sampled, not enumerated; absence of data races is '
+                   'the race detector\'s verdict on the executed schedules, not a theorem. The scan model does not prove '
+                   'termination (every worker eventually delivers).',
+        technique='Lean 4 proof (heap-model invariant by induction over histories; LTS invariant over all traces) + '
+                  'model/implementation correspondence incl. concurrent runs under the Go race detector',
+    ),
     'C02': dict(
         areas=[('algo', 20000, 3000000)],
         rule=ALGO_RULE, trusted=ALGO_TRUST,
